@@ -348,6 +348,36 @@ def complexReadS (S : CxShape) (strict : Bool) (parts : List (List AttrD × List
 def complexRead (strict : Bool) (parts : List (List AttrD × List Tok)) : Sev × List (List Val) :=
   complexReadS codeShape strict parts
 
+/-! ### complex instances whose parts carry redefining entries (an ANDOR member that redeclares an attribute of its supertype)
+
+`STEPcomplex::BuildAttrs` builds a part from `ExplicitAttr()` of its entity, redefining attribute descriptors included, and every
+part is read by `SDAI_Application_instance::STEPread( …, useTechCor, strict )`: the loop above, per part, in either encoding
+(`CA(5)` / pre-technical-corrigendum `CA(*,5)` for a part [redefining cr.n, x]). -/
+
+/-- what C15-8 merges from a part other than the first: the errors its ATTRIBUTES hold after the part has been read, attributes
+    flagged derived excepted.  A redefining attribute object is never read (its error is empty); in the technical-corrigendum
+    encoding it takes no value, in the older one it takes one.  Aligned parameter lists only: a value other than `*` at a
+    redefining entry of the older encoding shifts the rest of the list in the code (`C15_pretc_dollar_shifts_witness`), which
+    this walk over a part that is NOT the first does not follow. -/
+def partAttrSevL (tc strict : Bool) : Sev → List Slot → List Tok → Sev
+  | acc, .redefining :: es, ts => if tc then partAttrSevL tc strict acc es ts else partAttrSevL tc strict acc es ts.tail
+  | acc, .attr a :: es, t :: ts =>
+    partAttrSevL tc strict (if a.derived then acc else mergeAttr acc (attrRead (attrStrict strict) a t).1) es ts
+  | acc, _, _ => acc
+
+/-- `STEPcomplex::STEPread` over parts given as attribute lists WITH redefining entries, in encoding `tc` -/
+def complexReadLS (S : CxShape) (tc strict : Bool) (parts : List (List Slot × List Tok)) : Sev × List (List Val) :=
+  let rs := parts.map (fun p => loopReadTC tc (partStrict strict) p.1 p.2)
+  let sev := match parts with
+    | [] => Sev.null
+    | h :: rest =>
+      let hs := (loopReadTC tc (partStrict strict) h.1 h.2).1
+      match S.merge with
+      | .none => hs
+      | .all => rest.foldl (fun acc p => Sev.greater acc (loopReadTC tc (partStrict strict) p.1 p.2).1) hs
+      | .nonDerivedAttrs => Sev.greater hs (rest.foldl (fun acc p => partAttrSevL tc (partStrict strict) acc p.1 p.2) .null)
+  (sev, rs.map (·.2))
+
 /-- `strict` as received by `obj->STEPread` in `STEPfile::ReadInstance` -/
 def fileStrictFor (complex : Bool) (fileStrict : Bool) : Bool :=
   if complex then (if readInstComplexPassesStrict then fileStrict else true)
